@@ -426,6 +426,11 @@ func (c *hijackConn) Close() error {
 	}
 
 	conn := c.Conn
+	if conn == nil {
+		// already closed: the object went back to the pool with the first Close and
+		// must not be put a second time
+		return nil
+	}
 	c.e.releaseHijackConn(c)
 	return conn.Close()
 }
